@@ -77,6 +77,10 @@ def _keys_expr_kind(e: ast.AST, conv) -> Optional[str]:
                 return "all"
             return "only " + base.rsplit(".", 2)[-2]
         return None
+    # another reduction of the column (nunique, count, ...) is not the key count
+    if isinstance(e, ast.Call) and isinstance(e.func, ast.Attribute) and e.func.attr not in ("max",) and \
+            unparse(e.func.value).endswith(".column") and not e.args:
+        return f"column-reduction:{e.func.attr}"
     if colmax(e):
         return "column-max+0" if colmax(e) == "all" else f"partial:{colmax(e)}"
     if isinstance(e, ast.BinOp) and isinstance(e.op, (ast.Add, ast.Sub)):
@@ -105,6 +109,9 @@ def _why_bad(k: str) -> str:
                 f"objects of another list is written with too few keys")
     if k.startswith("column-max+"):
         return f"the key count of columns 0..max is max + 1, not max + {k[11:]}"
+    if k.startswith("column-reduction:"):
+        return (f"the key count is taken as column.{k[17:]}(): the number of lanes in use, not the number of lanes — a chart "
+                f"that leaves a lane below its highest one unused is written with too few keys and its top lane falls outside")
     if k.startswith("wrong-table:"):
         return f"the source's key field is looked up in another game's table: {k[12:]}"
     return f"key count is derived as '{k}'"
@@ -293,10 +300,22 @@ def rule_r4(ctx) -> List[R.Inst]:
     return insts
 
 
+def rule_r5(ctx) -> List[R.Inst]:
+    """content of the conversion step (rule code of C08.R1-R3, evaluated here on the same 17 entry points)"""
+    out = []
+    for fn_, tag in ((c08.rule_r1, "R1"), (c08.rule_r2, "R2"), (c08.rule_r3, "R3")):
+        for i in fn_(ctx):
+            i.key = f"C08.{tag}:{i.key}"
+            i.rule = "C09.R5"
+            out.append(i)
+    return out
+
+
 SPECS = [
     RuleSpec("C09.R1", rule_r1, 16, "M0", "the 16 source->target converters exist, are exported, and their target has a writer"),
     RuleSpec("C09.R2", rule_r2, 13, "A1", "the target's key-count field is derived from the source's key count"),
     RuleSpec("C09.R3", rule_r3, 3, "A7", "key<->mode tables mutually inverse; the SM writer sizes rows from the same table"),
+    RuleSpec("C09.R5", rule_r5, 200, "A1", "converter content: list mapping tables, declared targets, one target per source (C08.R1-R3 on the pipeline)"),
     RuleSpec("C09.R4", rule_r4, 5, "A1", "StepMania file offset = first tempo point of the source (0 only where the reader pins it)"),
 ]
 
